@@ -152,6 +152,40 @@ pub fn gen(rng: &mut Rng, tier: &str, dist: &mut Dist) -> Vec<String> {
     let n = if tier == "thorough" { 5000 } else { 500 };
     let max_len = if tier == "thorough" { 30000 } else { 4000 };
     let mut cmds = Vec::new();
+    // dictionary sizes that are not a multiple of 16 with inputs of 2.5 dictionaries: the reader's window
+    // is larger than the dictionary (rounded up), and after the first wrap-around the position bits
+    // (pos_state, literal position) must still be those of the stream position, not of the buffer
+    for (i, dict) in [4097u32, 4100, 4111, 5004, 6007].iter().enumerate() {
+        let len = (*dict as usize) * 5 / 2 + 37;
+        let data = gen_data_len(rng, if i % 2 == 0 { "text" } else { "mixed" }, len);
+        let o = Opts { lc: if i % 2 == 0 { 3 } else { 0 }, lp: if i % 2 == 0 { 0 } else { 4 }, pb: [2u32, 4, 1, 4, 3][i], dict: *dict, nice: 32, mode: (i % 2) as u32, mf: ((i / 2) % 2) as u32, depth: 0 };
+        dist.bump("dict_not_multiple_of_16");
+        cmds.push(format!("lzma2enc {} 0 none {} .", o.to_string(), hex(&data)));
+        let o1 = Opts { lc: 3, lp: 1, ..o.clone() };
+        cmds.push(format!("lzma1enc {} {} none {}", o1.to_string(), i % 4, hex(&data)));
+    }
+    // staircase for small nice_len: a word of nice_len bytes preceded by its prefixes of every length
+    // nice_len-1 .. 2 (each followed by a unique byte), so that at the word's position the match finder
+    // reports a match of EVERY length 2..nice_len - the match table must hold them all
+    for (i, nice) in [8u32, 9, 12, 16, 33].iter().enumerate() {
+        let n = *nice as usize;
+        let word: Vec<u8> = (0..n).map(|j| b'A' + ((j * 7 + i) % 23) as u8).collect();
+        let mut data = Vec::new();
+        for l in (2..=n).rev() {
+            data.extend_from_slice(&word[..l]);
+            data.push(0x80 + (l as u8));
+        }
+        for _ in 0..3 {
+            data.extend_from_slice(&word);
+            data.push(0xF0 + i as u8);
+        }
+        for (mode, mf) in [(0u32, 0u32), (1, 0), (0, 1), (1, 1)] {
+            let o = Opts { lc: 3, lp: 0, pb: 2, dict: 4096, nice: *nice, mode, mf, depth: 0 };
+            dist.bump("staircase_small_nice_len");
+            cmds.push(format!("lzma2enc {} 0 none {} .", o.to_string(), hex(&data)));
+            cmds.push(format!("lzma1enc {} 0 none {}", Opts { depth: 64, ..o.clone() }.to_string(), hex(&data)));
+        }
+    }
     // inputs longer than the 2 MiB uncompressed limit of one LZMA2 chunk: p incompressible bytes, then
     // zeros, so that the symbols are 273-byte matches and the size of the first chunk before its last
     // symbol is 2 MiB - 273 - r for a chosen residue r: p sweeps the residues around the limit
